@@ -48,7 +48,7 @@ def gen_history(rng):
             steps.append(["import", rng.choice(USER + ["upkg.one", "upkg_more.three", "mpilot.libraries.eems.netcdf.io", "mpilot.libraries.eems.csv.io"])])
         elif k == "define":
             name = rng.choice(["Sum", "Alpha", "Beta", "Shared", "EEMSRead", "Zeta", "Copy"])
-            mod = rng.choice(["__main__", "__main__", "ulib_helpers", "ulibrary", "other_things", "mpilot.libraries.eems.basic_extra", "upkg_tools.x"])
+            mod = rng.choice(["__main__", "__main__", "ulib_helpers", "ulibrary", "other_things", "mpilot.libraries.eems_extra.basic", "mpilot.libraries.eemsx.basic", "upkg_tools.x"])
             steps.append(["define", name, mod])
         else:
             steps.append(["run", ["ulib"], MODEL])
